@@ -380,6 +380,15 @@ def run(ctx):
                 for e, m in combos:
                     expiry(ctx, zone, iface, e, m)
                     ctx.case((zone, iface, e, m) if e is not None else None)
+                # lifetimes that end around a New Year (where week-based and calendar years differ), on a leap day, on the last second of a year
+                import calendar
+                now = time.time()
+                y0 = time.gmtime(now).tm_year
+                for y in range(y0 + 1, y0 + 13):
+                    for mo, d, hh, mi, ss in ((1, 1, 0, 0, 0), (1, 2, 12, 0, 0), (12, 29, 12, 0, 0), (12, 31, 23, 59, 59), (1, 3, 0, 0, 1)) + (((2, 29, 12, 0, 0),) if calendar.isleap(y) else ()):
+                        if (y + mo + d + zi) % 3 == 0:
+                            expiry(ctx, zone, iface, int(calendar.timegm((y, mo, d, hh, mi, ss)) - now), -1)
+                            ctx.case((zone, iface, "new-year", y, mo, d))
                 expiry(ctx, zone, iface, None, -1, delete=True)
                 ctx.case((zone, iface, "delete"))
                 expiry(ctx, zone, iface, None, -1, delete="after-set")
